@@ -11,6 +11,8 @@
 package pool
 
 import (
+	"net"
+	"errors"
 	"encoding/binary"
 	"fmt"
 	"runtime"
@@ -1004,6 +1006,78 @@ func closeDuringCreate(o *hx.Out, g *hx.Rng) {
 	}
 }
 
+// closeAfterWriteError (C15, fixed scenario): the socket has reported a write error before Close is
+// called.  Close must still release everything: an accepted session leaves the listener's table, a
+// session that owns its socket closes it (its read loop ends).
+type failConn struct {
+	in     chan struct{}
+	closed chan struct{}
+	once   sync.Once
+	fail   atomic.Bool
+	local  net.Addr
+}
+
+func newFailConn(name string) *failConn {
+	return &failConn{in: make(chan struct{}), closed: make(chan struct{}), local: memAddr(name)}
+}
+func (c *failConn) ReadFrom(p []byte) (int, net.Addr, error) {
+	<-c.closed
+	return 0, nil, net.ErrClosed
+}
+func (c *failConn) WriteTo(p []byte, a net.Addr) (int, error) {
+	if c.fail.Load() {
+		return 0, errors.New("injected: network is unreachable")
+	}
+	return len(p), nil
+}
+func (c *failConn) Close() error                     { c.once.Do(func() { close(c.closed) }); return nil }
+func (c *failConn) LocalAddr() net.Addr              { return c.local }
+func (c *failConn) SetDeadline(time.Time) error      { return nil }
+func (c *failConn) SetReadDeadline(time.Time) error  { return nil }
+func (c *failConn) SetWriteDeadline(time.Time) error { return nil }
+
+func closeAfterWriteError(o *hx.Out) {
+	sch := &kcp.TimedSched{}
+	kcp.SystemTimedSched = sch
+	pump := &pumper{sch: sch}
+	lc := newFailConn("S-fail")
+	l, err := kcp.ServeConn(nil, 0, 0, lc)
+	if err != nil {
+		panic(err)
+	}
+	dg := make([]byte, 24+5)
+	binary.LittleEndian.PutUint32(dg, 0x6161)
+	dg[4] = 81
+	binary.LittleEndian.PutUint16(dg[6:], 32)
+	binary.LittleEndian.PutUint32(dg[20:], 5)
+	copy(dg[24:], "hello")
+	kcp.VerifListenerPacketInput(l, dg, memAddr("peer-write-error"))
+	l.SetReadDeadline(time.Now().Add(2 * time.Second))
+	s, err := l.AcceptKCP()
+	o.Count("close-after-write-error")
+	if err != nil {
+		o.Note("closeAfterWriteError: Accept: " + err.Error())
+	} else {
+		lc.fail.Store(true)
+		s.SetWriteDeadline(time.Now().Add(time.Second))
+		s.Write([]byte("data that cannot leave"))
+		for k := 0; k < 3; k++ {
+			pump.round()
+			time.Sleep(5 * time.Millisecond) // postProcess hands the datagram to the failing socket
+		}
+		s.Close()
+		if _, n := kcp.VerifListenerBacklog(l); n != 0 {
+			o.Violate(hx.Violation{Kind: "leak-session-entry", Detail: fmt.Sprintf("an accepted session whose socket had reported a write error was closed, but it is still in the listener's session table (%d entries): Close did not release it, a later datagram from that address is routed to a dead session", n),
+				Replay: []string{"ServeConn over a conn whose WriteTo fails; first datagram -> Accept; Write + update (the write error is recorded); Close; VerifListenerBacklog"}})
+		}
+	}
+	l.Close()
+	lc.Close()
+	for k := 0; k < 3; k++ {
+		pump.round()
+	}
+}
+
 func Run(o *hx.Out, g *hx.Rng, tier string) {
 	o.Res.Rule = "a case is one traffic history (cipher x FEC x faults x scenario x close order) or one synthetic get/put/use sequence; distinct = distinct configurations / sequences; non-trivial = at least one pool event"
 	saved := kcp.SystemTimedSched
@@ -1021,6 +1095,7 @@ func Run(o *hx.Out, g *hx.Rng, tier string) {
 	runtime.GC()
 	runtime.GC() // empties the sync.Pool (the synthetic sequences put buffers twice on purpose)
 	closeDuringCreate(o, g.Fork())
+	closeAfterWriteError(o)
 	runtime.GC()
 	kcp.VerifPoolReset()
 	goroutineBase, _ = waitNoGoroutines(0, 300*time.Millisecond)
